@@ -135,8 +135,12 @@ def direct_sites():
 
             V().visit(tree)
             out.extend(forwarded_sites(tree, rel, out))
+    FORWARDERS[:] = sorted({"%s|%s|%s" % (o[0], o[1], o[2]) for o in out if o is not None and len(o) > 5 and o[5] == "forwarder"})
     return [o for o in out if o is not None and not (len(o) > 5 and o[5] == "forwarder")] + \
            [o[:5] for o in out if o is not None and len(o) > 5 and o[5] == "forwarded"]
+
+
+FORWARDERS = []     # extract-method forwarders of insert_element_before found by the last direct_sites() call
 
 
 def forwarded_sites(tree, rel, out):
@@ -351,7 +355,7 @@ def main():
     write_if_changed(os.path.join(VERIF, "coq", "gen", "GenC10.v"), text)
     names = {v: k for k, v in intern.ids.items()}
     json.dump({"checks": meta, "tag_names": {str(k): v for k, v in names.items()}, "unmodelled": unmodelled,
-               "outside": outside, "customs": customs, "sites": site_keys, "n_inserters": ninserters,
+               "outside": outside, "customs": customs, "sites": site_keys, "forwarders": list(FORWARDERS), "n_inserters": ninserters,
                "n_declaration_sites_ast": count_declaration_sites()},
               open(os.path.join(VERIF, "coq", "gen", "c10_meta.json"), "w"), indent=1)
     print("tx_c10: %d checks, %d types, %d inserters, %d outside, %d custom, %d direct sites, %d unmodelled" % (
